@@ -108,6 +108,9 @@ def cholesky_stub(a, *args, **kw):
 
 
 def eigh_stub(a, *args, **kw):
+    a_ = _obj(a)
+    if a_.shape == (1, 1):
+        return npx.SArr(np.array([a_[0, 0]], dtype=object), float), npx.SArr(np.array([[S.const(1)]], dtype=object), float)
     lam, Q = _lookup('eigh', a)
     return npx.SArr(_obj(lam), float), npx.SArr(_obj(Q), float)
 
